@@ -42,8 +42,9 @@ func AddStd(t *tspb.Timestamp, d time.Duration) *tspb.Timestamp {
 		return nil
 	}
 	if d == 0 {
-		t2 := *t
-		return &t2
+		// a fresh value: copying the struct would also copy the message's internal
+		// state and share its unknown-field storage with t
+		return &tspb.Timestamp{Seconds: t.Seconds, Nanos: t.Nanos}
 	}
 	t2 := tspb.New(t.AsTime().Add(d))
 	overflowPanic(t, t2, d < 0)
@@ -73,8 +74,7 @@ func Add(t *tspb.Timestamp, d *durpb.Duration) *tspb.Timestamp {
 		return nil
 	}
 	if d.Seconds == 0 && d.Nanos == 0 {
-		t2 := *t
-		return &t2
+		return &tspb.Timestamp{Seconds: t.Seconds, Nanos: t.Nanos}
 	}
 	t2 := tspb.Timestamp{
 		Seconds: t.Seconds + d.Seconds,
